@@ -17,6 +17,14 @@ CHECKS = {
                     'grammar accepts) and must equal an independent grammar-based decomposition; sigFromPy and the '
                     'variant round trip are explored for 60 value shapes with symbolic leaves.',
             'ref': 'DESIGN.md 2/C19', 'note': NOTE, 'technique': SYM},
+    'C18': {'text': 'Each validator is translated from its current source into regular languages (accept / reject / '
+                    'escapes) and z3 decides the three emptiness questions against the DBus grammar over ALL strings of '
+                    'length <= 300; the constructors are explored with CrossHair using validator spies with symbolic '
+                    'verdicts. The translator is re-validated against the real validators on every run.',
+            'ref': 'DESIGN.md 1.5, 2/C18', 'note': NOTE + ' Additionally trusted: vf/regtrans.py (AST -> regular '
+                    'language translator), validated per run on ~90 strings per validator.',
+            'technique': 'source-to-SMT translation (regular languages) decided by z3; ' + SYM + ' for the constructors',
+            'engine': 'crosshair-z3'},
 }
 _TODO = 'check not built yet in this revision (planned, see DESIGN.md section 2)'
 NOT_APPLICABLE = {('C%02d' % i): _TODO for i in range(1, 21)}
